@@ -22,6 +22,24 @@ def model_check(rep, tier, wd):
     r = run_tlc(wd, "MC_History", cfg=cfg, workers=8, timeout=2400, xmx="12g")
     tlc_require_ok(r, "History model")
     rep.add_tlc("History (Write vs RecordRule, Walk vs WalkRule, %s)" % cfg, r)
+    hist_sources_model(rep, tier, wd)
+
+
+def hist_sources_model(rep, tier, wd):
+    """the list of bound sources and the index of the active one under every order of application operations (Add, Delete by name,
+    Delete all) and user operations (cycling, uses by history commands): index never out of range, names and map agree, the
+    operators HistoryTrace follows recorded executions with are the model's; the pinned shape is a regression config TLC must refute"""
+    cfg = "MC_HistSources.cfg"
+    if tier == "thorough":
+        open(os.path.join(wd, "MC_HistSources_t.cfg"), "w").write(open(os.path.join(wd, cfg)).read().replace("MaxOps = 7", "MaxOps = 10").replace('{"default", "a", "b"}', '{"default", "a", "b", "c"}'))
+        cfg = "MC_HistSources_t.cfg"
+    r = run_tlc(wd, "HistSources", cfg=cfg, workers=4, timeout=900)
+    tlc_require_ok(r, "HistSources (repaired shape)")
+    rep.add_tlc("HistSources (NoPanic, ActiveIsBound, NamesAreBound, OpsAgree, %s)" % cfg, r)
+    r = run_tlc(wd, "HistSources", cfg="MC_HistSources_pinned.cfg", workers=4, timeout=600)
+    if r.violation is None or "NoPanic" not in r.violation:
+        raise Infra("the pinned shape of HistSources should violate NoPanic (model self-test): %s" % r.violation)
+    rep.notes.append("HistSources pinned shape: TLC finds the active-source index out of range (depth %s), as expected" % r.depth)
 
 
 def run(rep, tier, seed):
